@@ -15,11 +15,13 @@ import numpy as np
 import common
 from common import Ctx, Finding, Outcome
 
+import c20_flow
 import c20_spec
 
 PROPERTY = "C20"
-LEAN_TARGETS = ["QcelVerif.Props.C20", "QcelVerif.Props.C20Spec", "QcelVerif.Props.C20Elems", "QcelVerif.Driver.C20"]
-TRANSLATORS = [c20_spec.gen_result_spec]
+LEAN_TARGETS = ["QcelVerif.Props.C20", "QcelVerif.Props.C20Spec", "QcelVerif.Props.C20Elems", "QcelVerif.Model.ProtocolsAst", "QcelVerif.Gen.ProtocolsFlow",
+                "QcelVerif.Model.ProtocolsFlow", "QcelVerif.Props.C20Flow", "QcelVerif.Driver.C20"]
+TRANSLATORS = [c20_spec.gen_result_spec, c20_flow.gen_protocols_flow]
 DRIVER = "QcelVerif/Driver/C20.lean"
 THEOREMS = [
     ("QcelVerif.Protocols.reshapeExact_ok_iff", "reshape to a full shape is accepted iff the sizes agree, and then yields exactly that shape (size preserved)"),
@@ -81,14 +83,50 @@ THEOREMS = [
     ("QcelVerif.Protocols.validateRRE_data", "the validated return value holds exactly the supplied row-major elements (gradient, Hessian, unchanged otherwise)"),
     ("QcelVerif.Protocols.atomicResultE_shapes", "forgetting the elements, element-level AtomicResult construction is the shape model's atomicResult (same verdict, error locations, shapes, retained keys) — all C20 theorems transfer"),
     ("QcelVerif.Protocols.atomicResultE_data", "in an accepted AtomicResult every properties array, every retained wavefunction array and the return value hold exactly the row-major elements supplied under the same name"),
+    # --- control flow tied to the source (Props/C20Flow.lean): the validator bodies as translated by harness/c20_flow.py, run by the evaluator of Model/ProtocolsAst.lean
+    ("QcelVerif.Protocols.Src.wfn_body_shape", "OBLIGATION: the generated body of _wavefunction_protocol is exactly the statement tree the proofs walk through (loop bodies dropBody / keepBody named); any change of the source text breaks it"),
+    ("QcelVerif.Protocols.Src.nbf_body_shape", "OBLIGATION: the generated body of _calculate_nbf is exactly the statement tree the proofs walk through (two loops, bodies named)"),
+    ("QcelVerif.Protocols.Src.wfnProtocolSrc_eq", "for EVERY protocol and wavefunction dict: _wavefunction_protocol as translated from the source (restricted check, beta-dropping loop, if/elif chain, keep loop with its dangling check, returns and raises) evaluates — never stuck, no other exception — to exactly the hand model wfnProtocol"),
+    ("QcelVerif.Protocols.Src.wfnProtocolESrc_eq", "the same for the element-carrying model: _wavefunction_protocol as translated, run on dicts whose arrays carry shape AND row-major elements, = the hand model wfnProtocolE (Model/ProtocolsElems.lean), for every protocol and wavefunction"),
+    ("QcelVerif.Protocols.Src.src_wfnE_retains", "headline, over the source-derived element-carrying function: what the wavefunction protocol keeps under a key is exactly (shape and elements) the array supplied under that key"),
+    ("QcelVerif.Protocols.Src.stdoutSrc_eq", "for every flag and value: _stdout_protocol as translated = the hand model stdoutProtocol"),
+    ("QcelVerif.Protocols.Src.nativeSrc_eq", "for every policy and every files dict (distinct names): _native_file_protocol as translated = the hand model nativeProtocol"),
+    ("QcelVerif.Protocols.Src.trajectorySrc_eq", "for every policy and trajectory of any length: _trajectory_protocol as translated (len tests, v[0], v[-1] with Python indexing) = the hand model trajectoryProtocol; in particular no IndexError"),
+    ("QcelVerif.Protocols.Src.nfunctionsSrc_eq", "for every shell: ElectronShell.nfunctions as translated (harmonic_type branch, sum over the generator, 2L+1 / (L+1)(L+2)//2) = the model's count"),
+    ("QcelVerif.Protocols.Src.calcNbfSrc_eq", "for every centre table and atom map naming known centres: BasisSet._calculate_nbf as translated (dict-building loop over center_data.items(), summing loop over atom_map, calling the translated nfunctions) = the model's calcNbf"),
+    ("QcelVerif.Protocols.Src.checkAtomMapRaw_eq", "_check_atom_map as translated (set difference with center_data keys, KeyError escape when center_data failed) raises ValueError exactly when center_data is valid and some atom names no centre"),
+    ("QcelVerif.Protocols.Src.checkNbfRaw_eq", "_check_nbf as translated, with both fields valid: fills in the computed count when nbf is absent, accepts a supplied nbf iff equal, raises qcelemental's ValidationError otherwise"),
+    ("QcelVerif.Protocols.Src.checkNbfRaw_skip", "_check_nbf as translated passes the supplied value through (KeyError caught) when center_data or atom_map failed validation"),
+    ("QcelVerif.Protocols.Src.validateBasisSrc_eq", "for EVERY basis input: BasisSet validation with _check_atom_map, _check_nbf, _calculate_nbf and nfunctions taken from the source = the hand model validateBasis (same verdict, error locations, nbf)"),
+    ("QcelVerif.Protocols.Src.atomicResultSrc_eq", "for every AtomicResult input (distinct file names): construction with the wavefunction / stdout / native-files protocol validators taken from the source = the hand model atomicResult — all C20 theorems transfer"),
+    ("QcelVerif.Protocols.Src.src_wfn_all_keeps", "headline, over the source-derived function: protocol all keeps, restricted -> exactly the non-beta entries unchanged, unrestricted -> everything unchanged"),
+    ("QcelVerif.Protocols.Src.src_wfn_keeps_exactly", "headline, over the source-derived function: subset protocols keep exactly the selected, supplied, non-beta-if-restricted pointers and exactly the arrays they point to (unchanged), plus basis and restricted"),
+    ("QcelVerif.Protocols.Src.src_wfn_none_drops", "headline, over the source-derived function: protocol none keeps no wavefunction"),
+    ("QcelVerif.Protocols.Src.src_wfn_rejects_iff_dangling", "headline, over the source-derived function: rejection (ValueError -> validation error at `wavefunction`) exactly when a selected pointer names an array that is not (any longer) supplied"),
+    ("QcelVerif.Protocols.Src.src_wfn_idempotent", "headline, over the source-derived function: the wavefunction protocol applied to its own output returns it unchanged"),
+    ("QcelVerif.Protocols.Src.src_stdout_keeps", "headline, over the source-derived function: stdout kept unchanged iff requested; idempotent"),
+    ("QcelVerif.Protocols.Src.src_native_keeps", "headline, over the source-derived function: native files all -> unchanged, none -> empty, input -> only `input` with its supplied content"),
+    ("QcelVerif.Protocols.Src.src_trajectory_selects", "headline, over the source-derived function: trajectory all / none / final (last step, nothing if empty) / initial_and_final (first and last; <= 2 steps unchanged)"),
+    ("QcelVerif.Protocols.Src.src_nbf_consistent", "headline, over the source-derived BasisSet validators: accepted => nbf = count implied by the shells; supplied nbf accepted iff equal; absent is filled in"),
 ]
 TRUSTED_BASE = [
     "Lean 4.33 kernel; axioms per theorem audited on every run (subset of propext, Classical.choice, Quot.sound)",
     "hand-written models Model/Protocols.lean (shapes) and Model/ProtocolsElems.lean (shapes + row-major elements) of results.py / procedures.py / basis.py validators. "
     "REGENERATED FROM THE SOURCE on every run and compared in Lean (Props/C20Spec.lean): which field gets which reshape rule, the guard when calcinfo_natom / basis is missing, "
     "field universes and declaration order, per-protocol keep lists, dropped suffix, driver -> return_result rule, trajectory / native_files / stdout branches, enum members. "
-    "Still tied only by differential correspondence: the control flow around those tables (pydantic collecting errors, failed fields absent from `values`, the keep loop and its dangling check, "
-    "BasisSet validators and nfunctions) — on the generated stream (retained key sets, shapes, element digests, error class and failing locations)",
+    "ALSO REGENERATED FROM THE SOURCE on every run (harness/c20_flow.py -> Gen/ProtocolsFlow.lean) and PROVED equal to the hand models for all inputs (Props/C20Flow.lean): the control flow of "
+    "_wavefunction_protocol (restricted check, beta-dropping loop, protocol if/elif chain, keep loop with its dangling-pointer check), _stdout_protocol, _native_file_protocol, "
+    "OptimizationResult._trajectory_protocol, ElectronShell.nfunctions, BasisSet._check_atom_map / _check_nbf / _calculate_nbf. "
+    "Still tied only by differential correspondence: what pydantic does around the validators (collecting errors, failed fields absent from `values`, ValueError -> ValidationError at the field, "
+    "other exceptions escaping, validator order), the shell validators _check_coefficient_length / _check_general_contraction_or_fused (Shell.ok), the reshape validators' bodies beyond their "
+    "tables, the isinstance(value, WavefunctionProperties) branch of _wavefunction_protocol (only dict inputs are modelled) — on the generated stream (retained key sets, shapes, element digests, error class and failing locations)",
+    "the evaluator of Model/ProtocolsAst.lean — the semantics given to the Python constructs the validators use (if/elif/else, for over a list / dict items with continue, try/except, return, raise, "
+    "`is`/`==`/`in`, dict get/pop/[]/keys/copy, list literals and Python indexing, len/sum/set/list, generator expressions, + - * //) — and the encodings of Model/ProtocolsFlow.lean "
+    "(a wavefunction dict as a dict over the 34 field keys whose pointer values are array keys; sets as lists; dict iteration in key-list order). THREE-WAY on every A / AE / B / T line: the driver "
+    "evaluates the source-derived functions too and reports any difference from the hand model (`FLOWDIFF`), so a wrong evaluator semantics shows as a disagreement with the implementation",
+    "harness/c20_flow.py (translator): prints every statement / expression node of the eight function bodies one-to-one (normalisations listed in its docstring); any node type, operator, builtin, "
+    "method or call form outside the AST is a FlowTranslatorError (= failed run); cross-checked on every run against the live classes: the body translated from the file text equals the body "
+    "translated from `inspect.getsource` of the imported function, and each validator is registered exactly once, on the field and with the pre / always flags the models assume",
     "harness/c20_spec.py (translator): reads the text by `ast`, evaluates each validator body symbolically per attached field name (reshape arguments, `is None` guards); unknown constructs are a "
     "translator error or a `.other` rule (both fail the run). Its field lists, shape/units keywords, required flags and validator attachments are cross-checked on every run against the live classes "
     "(`__fields__`, `__validators__`); a translator bug in the rule extraction would show as a failed `decide` (the model tables are independent) or as a correspondence disagreement",
@@ -99,6 +137,8 @@ TRUSTED_BASE = [
 ]
 ASSUMPTIONS = [
     "element values: modelled (payload carried through reshape and protocols, theorems *_data / *_retains) and tied by digest on the AE / PE streams; the A / P streams still compare shapes only (plus the oracle's own element comparison)",
+    "dict keys are distinct (file names of native_files, centre ids of center_data: hypotheses `Nodup` of nativeSrc_eq / atomicResultSrc_eq; the driver rejects duplicate centre ids); the loops of the "
+    "translated validators are order-independent, so a dict is iterated in the order of its key list and a set is the list of its elements",
     "return pointers name wavefunction array fields (any of the 22), calcinfo_natom >= 0, well-formed shells (non-empty angular_momentum/exponents/coefficients), protocols objects themselves valid",
     "array inputs are float ndarrays (C-contiguous, Fortran-ordered or strided views; in the AE / PE streams also another factorisation of the right size) or nested lists; "
     "hessian sizes < 2^52 so that int(size**0.5) is the exact integer square root",
@@ -119,7 +159,7 @@ RULE = (
     "calcinfo_natom, return_result per driver, stdout and native files supplied or not; AE-cases: the same product with K/4 payloads, every array "
     "carrying the digest of its row-major elements and built in a random memory layout (C, Fortran, strided view, nested list); PE-cases: properties alone, likewise; "
     "B-cases: basis sets alone; P-cases: properties alone; "
-    "T-cases: 4 trajectory policies x 0..6 steps (exhaustive). A case is distinct by its line; non-trivial when a filter removes something, "
+    "T-cases: 4 trajectory policies x 0..6 steps (exhaustive). On A / AE / B / T lines the Lean driver answers three-way (hand model and source-derived evaluator). A case is distinct by its line; non-trivial when a filter removes something, "
     "an array needs reshaping, a layout is given, or the outcome is a rejection."
 )
 LEVEL_TEXT = (
@@ -128,11 +168,13 @@ LEVEL_TEXT = (
     "proof by kernel evaluation over tables regenerated from the source text on every run that every declared array shape has exactly its validator "
     "(completeness, with localized_fock nmo x nmo as the one named exception), that no validator sits on a wrong field (soundness), and that the model's "
     "field->rule tables, keep lists, driver / trajectory / native / stdout branches and enum members equal the source's; "
-    "partial: the control flow around those tables (pydantic error collection, keep loop, basis validators) is tied by differential correspondence only "
-    "(retained key sets, shapes, element digests, error class, failing locations)"
+    "proof that the CONTROL FLOW of the eight protocol / basis validator bodies, translated statement by statement from the source text on every run and run by a small Python-subset evaluator in Lean, "
+    "equals the hand models for all inputs (so every retention theorem is restated and proved over the source-derived functions); "
+    "partial: pydantic's bookkeeping around the validators (error collection, `values` contents, validator order), the two shell-coefficient validators, and the object (non-dict) wavefunction input "
+    "are tied by differential correspondence only (retained key sets, shapes, element digests, error class, failing locations)"
 )
 TECHNIQUE = ("Lean 4 proof over abstract payloads (key sets, shapes, pointer targets, row-major element sequences) + ast translator of field/validator/protocol tables with `decide` "
-             "theorems + line-protocol differential correspondence + independent oracle")
+             "theorems + ast translator of the validator bodies into a statement AST with an evaluator in Lean and equivalence proofs + line-protocol differential correspondence + independent oracle")
 
 warnings.simplefilter("ignore")
 
@@ -1701,6 +1743,39 @@ def check_translator(ctx, out):
         out.mismatches.append(Finding("translator-vs-live-classes", {"line": None}, observed=b, expected="agreement",
                                       detail="harness/c20_spec.py (ast) and the imported classes (__fields__/__validators__) disagree"))
     out.notes.append(f"translator cross-check against live classes: {'agree' if not bad else bad}")
+    # the control-flow translator: the translated text is the text of the imported functions, registered on the fields the models say
+    try:
+        bad2 = c20_flow.cross_check()
+    except Exception as e:  # noqa
+        bad2 = [f"flow translator failed: {type(e).__name__}: {e}"]
+    out.count("translator:flow_cross_check_items", 1)
+    for b in bad2:
+        out.mismatches.append(Finding("flow-translator-vs-live-classes", {"line": None}, observed=b, expected="agreement",
+                                      detail="harness/c20_flow.py (ast of the file text) and the imported validator functions / their registration disagree"))
+    out.notes.append(f"flow translator cross-check against live functions: {'agree' if not bad2 else bad2}")
+
+
+THREEWAY_OPS = ("A", "AE", "B", "T")  # the lines whose model answer involves a validator translated by c20_flow.py
+
+
+def split_flow(out, line, ml):
+    """THREE-WAY: the driver answers with the hand-written model's line when the source-derived evaluator (validator bodies
+    translated from the text of the working tree, run in Lean) gives the same line, else with `FLOWDIFF hand=[..] src=[..]`.
+    Returns the hand line (compared with the implementation as before); a difference is a broken tie of its own kind, and the
+    source-derived line is compared with the implementation too (recorded in the finding)."""
+    if ml is None:
+        return None
+    if line.split("|", 1)[0] in THREEWAY_OPS:
+        out.count("threeway:lines")
+    if not ml.startswith("FLOWDIFF "):
+        return ml
+    body = ml[len("FLOWDIFF hand=["):]
+    hand, _, src = body.partition("] src=[")
+    src = src[:-1] if src.endswith("]") else src
+    out.count("threeway:flowdiff")
+    out.mismatches.append(Finding("flow-mismatch", {"line": line}, observed=src, expected=hand,
+                                  detail="source-derived validator body (Gen/ProtocolsFlow.lean, evaluated in Lean) vs hand-written Lean model"))
+    return hand
 
 
 def run(ctx: Ctx) -> Outcome:
@@ -1712,7 +1787,7 @@ def run(ctx: Ctx) -> Outcome:
         model = ctx.run_model(DRIVER, lines)
     for line, ml in zip(lines, model):
         spec = dec(line)
-        CHECK[spec["op"]](ctx, out, spec, line, ml)
+        CHECK[spec["op"]](ctx, out, spec, line, split_flow(out, line, ml))
     out.exhaustive = False
     out.notes.append("A-cases cover the full 240-combination product of protocols x restricted x driver; payloads sampled from VERIF_SEED; "
                      "T-cases are exhaustive over 4 policies x 0..6 steps")
@@ -1724,5 +1799,5 @@ def replay(ctx: Ctx, case) -> Outcome:
     line = case["line"] if isinstance(case, dict) else case
     spec = dec(line)
     ml = ctx.run_model(DRIVER, [line])[0] if ctx.model_available else None
-    CHECK[spec["op"]](ctx, out, spec, line, ml)
+    CHECK[spec["op"]](ctx, out, spec, line, split_flow(out, line, ml))
     return out
